@@ -254,7 +254,49 @@ def _task_interleave(args):
     return st, vios, None
 
 
+def _task_clients(args):
+    """the formats as the gateway clients read them off a connection: the same frames written to the link of each client, in
+    one piece and in pieces that end inside packets, arrive as the message their pre-assembled delivery decodes to"""
+    kind, = args
+    from .. import clientkit, vloop
+    db = refdb.db()
+    vios = []
+    st = {"frames": 0, "decodes": 0, "nontrivial": 0, "agree_decoded": 0, "agree_failed": 0}
+    for pgn, did in ((129029, "gnssPositionData"), (127250, "vesselHeading"), (126720, "0x1ef00ManufacturerProprietaryFastPacketAddressed"), (59904, "isoRequest")):
+        defn = db.by_id.get((pgn, did))
+        if defn is None:
+            continue
+        p, n = payloads.build(defn, payloads.base_assignment(defn, "mid"))
+        payload = p.to_bytes(n, "little")
+        prio, src, dst = 3, 200, 255 if ((pgn >> 8) & 0xFF) >= 240 else 37
+        ref = attempt(whole_renderings(prio, pgn, src, dst, payload)["actisense"], NMEA2000Decoder())
+        packets = clientkit.render_message(kind, prio, pgn, src, dst, payload, defn.fast, seq=3)
+        stream = b"".join(packets) * 2                     # the message twice (the second one with the same counter is a repeat a sender may make)
+        stream = b"".join(packets) + b"".join(clientkit.render_message(kind, prio, pgn, src, dst, payload, defn.fast, seq=4))
+        for piece in (len(stream), 7, 5) + ((1,) if len(stream) <= 400 else ()):   # byte-by-byte only where the session stays within the boundary cap
+            chunks = [stream[i:i + piece] for i in range(0, len(stream), piece)]
+            sess = vloop.Session(kind=kind, script=[vloop.it_connect] + [vloop.it_feed(c, 0) for c in chunks])
+            o = sess.run()
+            st["frames"] += 1
+            st["decodes"] += len(chunks)
+            st["nontrivial"] += 1
+            got = [common.msg_view(None) if v is None else v[:8] for _, v in o.received]
+            want = [ref[:8], ref[:8]] if isinstance(ref, tuple) and len(ref) > 1 else []
+            if o.end_reason != "quiescent" or got != want:
+                if len(vios) < 20:
+                    vios.append({"kind": "formats_disagree", "facts": {"definition": did, "mechanism": "client_reading", "client": kind},
+                                 "signature": f"client:{kind}:{pgn}:{piece}",
+                                 "detail": f"[PGN {pgn} {did} sent twice to the {kind} client in pieces of {piece} bytes] the client delivered {len(got)} message(s) "
+                                           f"{'that differ from' if len(got) == len(want) else 'instead of'} the {len(want)} its pre-assembled delivery decodes to ({o.end_reason})",
+                                 "case": {"pgn": pgn, "definition": did, "client": kind, "piece": piece}})
+            else:
+                st["agree_decoded"] += 1
+    return st, vios, None
+
+
 def _dispatch(t):
+    if t[0] == "clients":
+        return _task_clients(t[1])
     return _task_interleave(t[1]) if t[0] == "interleave" else _task(t[1])
 
 
@@ -270,6 +312,7 @@ def run(ctx):
         buckets[j % nb].append(i)
     fast = [d.idx for d in db.defs if d.fast]
     tasks = [("main", (b, grid, ctx.seed)) for b in buckets if b] + [("interleave", (fast[j::16], ctx.seed)) for j in range(16) if fast[j::16]]
+    tasks += [("clients", (k,)) for k in ("ebyte", "waveshare", "yd", "actisense")]
     results = common.pmap(_dispatch, tasks)
     vios, samples = [], []
     tot = {"frames": 0, "decodes": 0, "nontrivial": 0, "agree_decoded": 0, "agree_failed": 0}
@@ -287,7 +330,7 @@ def run(ctx):
                 "fast-packet or shorter than 8 bytes",
         "samples": samples, "totals": tot, "addressing_grid": len(grid),
         "bound_completed": f"all {n} definitions x 4 data patterns (mid, max, min, seeded) x {len(grid)} addressings; every fast-packet definition as two interleaved "
-                           "streams (two sources; two destinations for addressed PGNs) x 2 counter pairs x 4 frame-level formats", "exhaustive": True,
+                           "streams (two sources; two destinations for addressed PGNs) x 2 counter pairs x 4 frame-level formats; 4 messages through the 4 gateway clients in pieces of 1, 5, 7 bytes and whole", "exhaustive": True,
     }
     return {"coverage": cov, "violations": vios,
             "assumptions": ["renderings written from the format descriptions (mc/wire.py)",
@@ -299,6 +342,9 @@ def replay(ctx, rep):
     c = rep["case"]
     db = refdb.db()
     defn = db.by_id[(c["pgn"], c["definition"])]
+    if "client" in c:
+        st, v, s = _task_clients((c["client"],))
+        return [x for x in v if x["case"]["pgn"] == c["pgn"] and x["case"]["piece"] == c["piece"]][:1]
     if "interleave" in c:
         st, v, s = _task_interleave(([defn.idx], c.get("seed", 0)))
         return [x for x in v if x["case"]["interleave"] == c["interleave"]][:1]
